@@ -42,7 +42,8 @@ func (d *Decoder) Init() error {
 
 // reset clears the decoder state.
 func (d *Decoder) reset() {
-	d.buffer = d.buffer[:0]
+	// do not reuse the buffer, since it may have been returned to the caller
+	d.buffer = nil
 	d.expectedSize = 0
 	d.currentTimestamp = 0
 	d.assembling = false
